@@ -10,10 +10,10 @@ import (
 func init() {
 	register(&Property{
 		ID:          "C06",
-		Explanation: "Narrow structural clauses of crash prefix-recoverability, decided on the indexer's source (the behaviour on arbitrary torn tapes is NOT decided): (resync-exits) the resynchronisation loop entered after a failed header read leaves only by end-of-file, by a successfully parsed header, or by returning a drive error - a header-parse error never ends the rebuild and never escapes the loop; every iteration re-derives the position from the drive's own offset, rounded UP to whole blocks (so an unaligned tail is stepped over instead of being re-read forever), seeks there and reads the next header; (header-before-content) in each iteration the header is applied to the index (indexHeader succeeded) before the member's content is skipped, which is what limits the damage of a cut inside content to that one record; (content-error-surfaces) a failure while skipping or seeking is returned to the caller, not swallowed; (append-only) cited from C05: no code path other than an explicit overwrite truncates, rewinds or rewrites the drive, so bytes before a torn tail are never touched.",
+		Explanation: "Narrow structural clauses of crash prefix-recoverability, decided on the indexer's source (the behaviour on arbitrary torn tapes is NOT decided): (resync-exits) the resynchronisation loop entered after a failed header read leaves only by end-of-file, by a successfully parsed header, or by returning a drive error - a header-parse error never ends the rebuild and never escapes the loop; every iteration re-derives the position from the drive's own offset, rounded UP to whole blocks (so an unaligned tail is stepped over instead of being re-read forever), seeks there and reads the next header; (header-before-content) in each iteration the header is applied to the index (indexHeader succeeded) before the member's content is skipped, which is what limits the damage of a cut inside content to that one record; (content-error-surfaces) a failure while skipping or seeking is returned to the caller, not swallowed; (no-compensation-on-error) no index row is changed on an edge on which an error is known to be non-nil - the rebuild keeps what complete records established; (append-only) cited from C05: no code path other than an explicit overwrite truncates, rewinds or rewrites the drive, so bytes before a torn tail are never touched.",
 		NotDecided:  "That archive/tar's reader terminates and fails cleanly on arbitrary bytes, that the rebuilt state equals the state after the last completely written record, that restoring the torn entry reports an error, the off-grid append after an unaligned cut (C16).",
 		Assumptions: []string{"(*tar.Reader).Next consumes at least one block or returns io.EOF", "reads at end of file return io.EOF"},
-		Rules:       []func(*Ctx){ruleC06ResyncExits, ruleC06HeaderBeforeContent, ruleC06ContentErrorSurfaces, ruleOverwriteProvenance("C06.append-only"), func(c *Ctx) { ruleC04BlockCountRoundsUpAs("C06.block-count-rounds-up")(c) }},
+		Rules:       []func(*Ctx){ruleC06ResyncExits, ruleC06NoCompensationOnError, ruleC06HeaderBeforeContent, ruleC06ContentErrorSurfaces, ruleOverwriteProvenance("C06.append-only"), func(c *Ctx) { ruleC04BlockCountRoundsUpAs("C06.block-count-rounds-up")(c) }},
 	})
 }
 
@@ -211,5 +211,74 @@ func ruleC06ContentErrorSurfaces(c *Ctx) {
 	}
 	if n < half(6) {
 		c.unresolved("only %d skip/seek calls found in recovery.Index", n)
+	}
+}
+
+// ruleC06NoCompensationOnError: the rebuild applies records strictly forward; an error while reading (a cut tape)
+// ends the pass with what has been applied so far. No index row is changed inside error handling (on an edge on
+// which some error value is known to be non-nil): "undoing" the entry of a torn record there would also undo state
+// that earlier, complete records established (a torn content update would delete the file whose old content is intact).
+func ruleC06NoCompensationOnError(c *Ctx) {
+	const rule = "C06.no-compensation-on-error"
+	c.floor(rule, 2, "index-changing calls in recovery.Index")
+	f := c.fn("pkg/recovery", "Index")
+	s := c.sinks()
+	if f == nil {
+		return
+	}
+	info := f.Pkg.TypesInfo
+	fl := c.flow(f)
+	// functions from which a row change is reachable
+	changes := map[*FuncInfo]bool{}
+	for ch := true; ch; {
+		ch = false
+		for _, g := range c.Funcs {
+			if changes[g] {
+				continue
+			}
+			for _, cs := range g.calls {
+				if s.isMutatorCall(cs) || (cs.Target != nil && changes[cs.Target]) {
+					changes[g] = true
+					ch = true
+					break
+				}
+			}
+		}
+	}
+	isErrNonNil := func(ft Fact) bool {
+		be, ok := ast.Unparen(ft.E).(*ast.BinaryExpr)
+		if !ok {
+			return false
+		}
+		var x ast.Expr
+		if isNilIdent(info, be.Y) {
+			x = be.X
+		} else if isNilIdent(info, be.X) {
+			x = be.Y
+		}
+		if x == nil {
+			return false
+		}
+		tv, ok := info.Types[x]
+		if !ok || tv.Type == nil || tv.Type.String() != "error" {
+			return false
+		}
+		return be.Op == token.NEQ && ft.Pos || be.Op == token.EQL && !ft.Pos
+	}
+	n := 0
+	for _, cs := range f.calls {
+		if !(s.isMutatorCall(cs) || (cs.Target != nil && changes[cs.Target])) {
+			continue
+		}
+		n++
+		inErr, reach := fl.guardedBy(cs.Call, isErrNonNil, nil)
+		if !reach {
+			continue
+		}
+		c.verdictIf(!inErr, rule, f, fmt.Sprintf("row change#%d %s", n, exprString(cs.Call.Fun)), cs.Call.Pos(),
+			"rows are changed only on the forward path, never while handling an error", "the index is changed inside error handling ("+exprString(cs.Call.Fun)+" on a path on which an error is known to be non-nil): compensating for a torn record also discards what earlier complete records established")
+	}
+	if n < 2 {
+		c.unresolved("only %d index-changing calls found in recovery.Index", n)
 	}
 }
